@@ -81,7 +81,7 @@ PROPS["C18"] = Spec(
 
 PROPS["C01"] = Spec(
     engine="harness.engines.teardown",
-    quick_cases=1500, thorough_cases=15000,
+    quick_cases=4000, thorough_cases=25000,
     rule="one context block (root / nested in a root / callbacks registered from component code during start_component; "
     "optionally inside an unrelated `except` handler) with 0-8 (thorough 0-14) teardown callbacks registered through the four "
     "routes (ctx.add_teardown_callback, module-level add_teardown_callback, add_resource(teardown_callback=), @context_teardown "
@@ -92,6 +92,6 @@ PROPS["C01"] = Spec(
     "identity of the exception passed in, group-membership rule for callback exceptions, caller-visible outcome; "
     "non-trivial = >=2 callbacks and one of: raising callback, async callback, registration during teardown, non-return "
     "ending, ambient exception",
-    bounds={"quick": "<=8 top-level callbacks, nesting depth<=2, 4x1500 cases", "thorough": "<=14 top-level callbacks, 16x15000 cases"},
+    bounds={"quick": "<=8 top-level callbacks, nesting depth<=2, 4x4000 cases", "thorough": "<=14 top-level callbacks, 16x25000 cases"},
     assumptions=COMMON_ASSUMPTIONS,
 )
